@@ -212,9 +212,10 @@ func C20(c *runner.Cfg) *report.Result {
 		var ls []*listener
 		var lmu sync.Mutex
 		add := func(l *listener) { lmu.Lock(); ls = append(ls, l); lmu.Unlock() }
+		var regN atomic.Int64 // the registrar goroutine must not share the case's random stream
 		regClient := func() *listener {
 			var l *listener
-			if r.Bool() {
+			if regN.Add(1)%2 == 0 {
 				l = x.newListener("client conn.OnClosed", closeInit, conn.OnClosed, func() bool { return conn.Closed().IsSet() })
 			} else {
 				cc := conn.Context()
